@@ -35,12 +35,15 @@ KINDS = ['hit', 'ctx', '404', '405', 'fall', 'exc', 'redir', 'hit2', 'app2', 'q4
 # further kinds, explored in the pairs listed in EXTRA_PAIRS: star = a route whose `*` binding is left empty and
 # whose endpoint appends to the list it was given; e404h / e405j = error responses negotiated for different Accept
 # headers.  For these pairs every execution is preceded by one sequential request of the first thread's kind.
-EXTRA_KINDS = ['star', 'e404h', 'e405j', 'cklogin', 'cklogout']
+EXTRA_KINDS = ['star', 'e404h', 'e405j', 'cklogin', 'cklogout', 'tabget', 'tabpost']
+# tabget / tabpost: a GET and a POST route on one path, different endpoints, both rendered as an HTML table by one
+# BasicRender instance (the page is headed by the endpoint's name and docstring)
 # cklogin / cklogout: a route behind SignedCookieMiddleware (session expiry, fixed clock) - one client stores its
 # token, the other logs out (gives its cookie an expiry)
 EXTRA_PAIRS = [('star', 'star'), ('star', 'hit'), ('star', '404'), ('e404h', 'e405j'), ('e405j', 'e404h'),
                ('e404h', 'e404h'), ('e404h', '404'), ('e405j', 'exc'), ('e405j', 'q405'),
-               ('cklogout', 'cklogin'), ('cklogin', 'cklogout'), ('cklogin', 'cklogin')]
+               ('cklogout', 'cklogin'), ('cklogin', 'cklogout'), ('cklogin', 'cklogin'),
+               ('tabget', 'tabpost'), ('tabpost', 'tabget')]
 # app2: served by a second Application; q405/qpost: a path with a GET-only and a POST-only route
 
 
@@ -122,10 +125,21 @@ class World(object):
                 cookie['user'] = val
             return Response('ck|%s|%s' % (val, sorted(cookie.items())))
 
+        from clastic.render import BasicRender
+        tab_render = BasicRender()
+
+        def ep_tab_get(val):
+            """Show the thing (GET)."""
+            return {'method': 'get', 'val': val}
+
+        def ep_tab_post(val):
+            """Change the thing (POST)."""
+            return {'method': 'post', 'val': val}
+
         def docs(rest, val):
             rest.append('index.%s' % val)
             return Response('docs|' + '/'.join(rest))
-        self.harness_funcs = [ep_ck, docs, Stamp.request, PerReq.request, PerReq.endpoint, ep, ep_ctx, render, nb, second, boom, second_q]
+        self.harness_funcs = [ep_ck, ep_tab_get, ep_tab_post, docs, Stamp.request, PerReq.request, PerReq.endpoint, ep, ep_ctx, render, nb, second, boom, second_q]
         from werkzeug.wrappers import Request
 
         class RecordingRequest(Request):
@@ -140,7 +154,7 @@ class World(object):
             request_type = RecordingRequest
         self.app = App([GET('/a/<x>', ep), ('/b/<x>/', ep), ('/c/<x>', ep_ctx, render), ('/n', nb), ('/n', second),
                                 ('/boom', boom), POST('/p', lambda: Response('p')), ('/d/<x:int>', ep),
-                                GET('/q/<x>', ep), POST('/q/<x>', second_q), ('/docs/<rest*>', docs),
+                                GET('/q/<x>', ep), POST('/q/<x>', second_q), ('/docs/<rest*>', docs), GET('/tab', ep_tab_get, tab_render), POST('/tab', ep_tab_post, tab_render),
                                 Route('/ck', ep_ck, middlewares=[SignedCookieMiddleware(secret_key=b'c12-fixed-key')])],
                                middlewares=[Stamp(), PerReq()])
 
@@ -151,6 +165,10 @@ class World(object):
         h = {'X-Tok': tok, 'Host': tok + '.example'}       # every request names its own host
         if kind == 'star':
             return ('/docs', 'GET', q, h)
+        if kind == 'tabget':
+            return ('/tab', 'GET', q, dict(h, Accept='text/html'))
+        if kind == 'tabpost':
+            return ('/tab', 'POST', q, dict(h, Accept='text/html'))
         if kind == 'cklogin':
             return ('/ck', 'GET', q + '&op=login', h)
         if kind == 'cklogout':
@@ -314,6 +332,70 @@ def explore_combo(acc, w, kinds, bound, part):
     return st
 
 
+# pairs explored on a *cold* application: every execution starts from a freshly constructed World, so whatever the
+# framework sets up lazily on the first request of a route is inside the explored window
+COLD_PAIRS = [('hit', 'hit'), ('hit', '404'), ('ctx', 'exc'), ('e404h', 'e404h'), ('star', 'star')]
+
+
+def generated_codes(app):
+    out = set()
+    seen = set()
+
+    def walk(fn):
+        code = getattr(fn, '__code__', None)
+        if code is None or id(fn) in seen or not code.co_filename.startswith('<sinter generated'):
+            return
+        seen.add(id(fn))
+        sched.walk_code(code, out)
+        for v in list(fn.__globals__.values()):
+            for f in (v if isinstance(v, (list, tuple)) else (v,)):
+                walk(f)
+    for rt in list(app.routes) + [app._null_route]:
+        walk(getattr(rt, '_execute', None))
+        walk(getattr(rt, '_render_error', None))
+    return out
+
+
+def explore_cold(acc, kinds, bound):
+    toks = ['t%dq' % (i + 1) + 'xyz'[i % 3] for i in range(len(kinds))]
+    seq = [World().serve(k, t) for k, t in zip(kinds, toks)]
+    cur = {}
+
+    def before():
+        w = World()
+        sched.instrument(generated_codes(w.app) | generated_codes(w.app2))
+        cur['w'] = w
+    bodies = [(lambda k=k, t=t: cur['w'].serve(k, t)) for k, t in zip(kinds, toks)]
+
+    def on_exec(run, results):
+        acc.evaluated += 1
+        acc.transitions += run.npoints
+        acc.validated += len(results)
+        acc.add('nontrivial')
+        for i, (r, s) in enumerate(zip(results, seq)):
+            if r is None or r[0] != 'ok' or r[1] != s:
+                first = next((j for j, c in enumerate(run.choices) if c), None)
+                acc.violation('C12:interference:cold:%s:%s' % (kinds[i], 'status' if (r and r[0] == 'ok' and r[1][0] != s[0]) else 'content'),
+                              'freshly constructed application, threads %r: thread %d (%s) got %r, alone it gets %r; first deviation at %r'
+                              % (kinds, i, kinds[i], r, s, run.pids[first] if first is not None else None),
+                              {'kinds': list(kinds), 'bound': bound, 'choices': list(run.choices), 'cold': True})
+                break
+    gc.disable()
+    try:
+        st = sched.explore(bodies, bound, on_exec, should_stop=deadline_passed, before=before)
+    finally:
+        gc.enable()
+    acc.outcome('cold-pair|bound%d' % bound, st['executions'])
+    label = 'cold:' + '+'.join(kinds)
+    if st['capped']:
+        acc.extra['cap_hit'] = 1
+        acc.extra.setdefault('capped_items', []).append('%s bound %d' % (label, bound))
+    else:
+        acc.extra.setdefault('completed_items', []).append('%s bound %d' % (label, bound))
+    acc.add('schedules', st['executions'])
+    return st
+
+
 def nshards(tier):
     return 32 if tier == 'quick' else 64
 
@@ -339,6 +421,19 @@ def shard(tier, i, n, seed):
         except (sched.Divergence, sched.Hang) as e:
             raise common.InternalError('scheduler: %s (threads %r bound %d)' % (e, kinds, bound))
         acc.sample({'threads': list(kinds), 'bound': bound, 'part': part, 'schedules': st['executions'],
+                    'scheduling_points_max': st['points_max']})
+    for k, kinds in enumerate(COLD_PAIRS):
+        if (k + 5) % n != i:
+            continue
+        if deadline_passed():
+            acc.extra['cap_hit'] = 1
+            acc.extra.setdefault('skipped_items', []).append('cold:%s' % '+'.join(kinds))
+            continue
+        try:
+            st = explore_cold(acc, kinds, 1)
+        except (sched.Divergence, sched.Hang) as e:
+            raise common.InternalError('scheduler: %s (cold threads %r)' % (e, kinds))
+        acc.sample({'threads': list(kinds), 'bound': 1, 'cold': True, 'schedules': st['executions'],
                     'scheduling_points_max': st['points_max']})
     # supplementary, non-deciding: free-running threads with a minimal switch interval (sampling, reported only)
     if i == 1 % n:
@@ -386,6 +481,7 @@ def finish(tier, merged, results):
     if not merged['violations'] and merged['extra'].get('nontrivial', 0) < 100:
         raise common.InternalError('vacuous: too few non-trivial schedules')
     return {'bounds': {'request_kinds': KINDS, 'pairs': 'all %d unordered pairs' % (len(KINDS) * (len(KINDS) + 1) // 2),
+                       'cold_application_pairs': ['+'.join(p) for p in COLD_PAIRS],
                        'extra_kinds': EXTRA_KINDS, 'extra_pairs_with_history': ['+'.join(p) for p in EXTRA_PAIRS],
                        'pair_preemption_bound': 1, 'pairs_at_preemption_bound_2': [] if tier == 'quick' else ['+'.join(p) for p in B2_PAIRS], 'triples': 5, 'triple_preemption_bound': 1,
                        'quadruples': 2, 'quadruple_preemption_bound': 0, 'granularity': 'bytecode instruction'},
@@ -405,6 +501,10 @@ def replay(case):
     common.setup_repo()
     w, _ = setup_world()
     kinds = case['kinds']
+    if case.get('cold'):
+        acc = common.Acc()
+        explore_cold(acc, tuple(kinds), case.get('bound', 1))
+        return (False, acc.violations[0]['desc']) if acc.violations else (True, 'ok')
     toks = ['t%dq' % (i + 1) + 'xyz'[i % 3] for i in range(len(kinds))]
     seq = [World().serve(k, t) for k, t in zip(kinds, toks)]
     bodies = [(lambda k=k, t=t: w.serve(k, t)) for k, t in zip(kinds, toks)]
